@@ -125,7 +125,7 @@ def ob_uniform(fmt, which, ti, blanks, maxlen, timeout):
     P, S_ = _prefix_suffix(fmt, which, ti, blanks)
 
     def pre(s):
-        ok = in_alphabet(s, ALPHA, maxlen)
+        ok = in_alphabet(s, ALPHA, maxlen) and s == s.strip()  # tier constructors strip labels
         if which == "name":
             ok = ok and "\n" not in s
         return ok
@@ -374,6 +374,10 @@ def ob_partition_ieee(k, timeout):
     return Ob("fillblanks-partition-ieee-k%d" % k, F(*names), body, pre, fmode="ieee", timeout=timeout, funcs=FUNCS[4:5], bounds="k=%d intervals, any finite binary64 timestamps inside [lo,hi]" % k)
 
 
+def ob_anchor_error(name, msg):
+    return Ob(name + "-anchor", [], lambda: True, kind="smt", smt=lambda: {"verdict": "ERROR", "detail": msg}, timeout=30, funcs=FUNCS[1:3], bounds="AST anchor check")
+
+
 def obligations(tier):
     obs = []
     if tier == "quick":
@@ -385,9 +389,14 @@ def obligations(tier):
         combos = [("short_textgrid", w, ti, b) for w in ("interval", "point", "name") for ti in (0, 1) for b in (True, False)]
         ks = (0, 1, 2, 3)
     for f in ("short_textgrid", "long_textgrid"):
-        for idx in range(len(writer_kernels(f))):
-            obs.append(ob_kernel(f, idx, ml, T))
-        obs.append(ob_marker_diff(f, 300))
+        try:
+            for idx in range(len(writer_kernels(f))):
+                obs.append(ob_kernel(f, idx, ml, T))
+            obs.append(ob_marker_diff(f, 300))
+        except AssertionError as e:
+            # the writer no longer has the expected shape: report it, but still run the
+            # whole-file obligations, which do not depend on the shape of the code
+            obs.append(ob_anchor_error("field-kernels-%s" % f.split("_")[0], str(e)))
         obs.append(ob_concrete(f, 300))
     for f, w, ti, b in combos:
         obs.append(ob_uniform(f, w, ti, b, 3, T))
@@ -396,9 +405,9 @@ def obligations(tier):
     from harness import C04
 
     for k in ks:
-        o = C04.ob_override(k, "sym", T)
-        o.name = "partition-" + o.name
-        obs.append(o)
+        for o in (C04.ob_override(k, "sym", T), C04.ob_fill(k, "sym", T)):
+            o.name = "partition-" + o.name
+            obs.append(o)
     obs.append(ob_formats_agree(300))
     obs.append(ob_json(ml, T))
     for k in ks:
